@@ -308,6 +308,11 @@ func (t *tlopen) handle(cs *connState) message {
 	}
 	defer ref.DecRef()
 
+	// Two Tlopen on the same fid may arrive back to back: only one of them
+	// may find the fid unopened and reach the backend.
+	ref.openedMu.Lock()
+	defer ref.openedMu.Unlock()
+
 	var (
 		qid    QID
 		ioUnit uint32
